@@ -170,6 +170,15 @@ WireHttpContinue == {
   Fx("continue_refused", <<"hc_200_range_ignored", "h_writer_continue", "OSError">>, <<"hc_200_range_ignored", "h_writer_continue", "ProtocolError">>),
   Fx("continue_refused", <<"hc_416", "h_writer_continue", "OSError">>, <<"hc_416", "h_writer_continue", "ProtocolError">>) }
 
+(* --warc-file: the WARC recorder listens to every step of the conversation; nothing it does may add an escape *)
+WireFtpWarc == {
+  <<"fw_ok", "none", "none">>, <<"fw_connect_refused", "f_connect", "OSConnRefused">>,
+  <<"fw_connect_timeout", "f_connect", "TimeoutError">>, <<"fw_retr_550", "f_reply_code", "FTPServerError">>,
+  <<"fw_data_reset", "f_data_read", "OSError">>, <<"fw_greeting_421", "f_reply_code", "FTPServerError">> }
+WireHttpWarc == {
+  <<"hw_ok", "none", "none">>, <<"hw_connect_refused", "h_connect", "OSConnRefused">>,
+  <<"hw_reset_in_header", "h_hdr_readline", "OSError">>, <<"hw_garbage", "h_status_parse", "ProtocolError">> }
+
 Segs == {"whole", "bytes1", "lines"}
 
 \* raw deflate delivered one byte at a time: zlib accepts the first piece as a zlib header and fails on the second, and
@@ -183,6 +192,7 @@ WireCases == WireOf(WirePage, "page", Segs) \cup WireOf(WireRobots, "robots", Se
              \cup WireOf(WireFtpParent, "ftpparent", {"whole"})
              \cup WireOf(WireFtpPerm, "ftpperm", {"whole"}) \cup WireOf(WireFtpSymlink, "ftpsym", {"whole"})
              \cup WireOf(WireFtpContinue, "ftpcont", {"whole"}) \cup WireOf(WireHttpContinue, "httpcont", {"whole"})
+             \cup WireOf(WireFtpWarc, "ftpwarc", {"whole"}) \cup WireOf(WireHttpWarc, "httpwarc", {"whole"})
 
 WireWellFormed == \A c \in WireCases : <<c.site, c.kind>> = None \/ (c.site \in Sites /\ c.kind \in Kinds)
 
